@@ -6,6 +6,7 @@ EXTENDS Cmdline, TLC, Json, IOUtils, SequencesExt
 CONSTANTS A1,       \* max length of the argument in 1-element lists
           A2,       \* max length of each argument in 2-element lists
           A3,       \* max length of each argument in 3-element lists
+          M2,       \* minimal (bare) quoting: max length of each argument in 2-element lists (1- and 3-lists: A1, A3)
           MaxStr,   \* max length of the arbitrary strings of the no-loss law
           WithTab   \* add TAB to the alphabet of the arbitrary strings
 Alpha == {"a", SP, DQ, SQ, BS}
@@ -13,18 +14,26 @@ Strs(S, n) == UNION {[1..k -> S] : k \in 0..n}
 ArgLists == {<<>>} \cup {<<a>> : a \in Strs(Alpha, A1)}
             \cup (Strs(Alpha, A2) \X Strs(Alpha, A2))
             \cup (Strs(Alpha, A3) \X Strs(Alpha, A3) \X Strs(Alpha, A3))
-InvCases == {[quoted |-> TRUE, args |-> a, line |-> QuoteJoin(a, sq), sq |-> sq] : a \in ArgLists, sq \in BOOLEAN}
-StrCases == {[quoted |-> FALSE, args |-> <<>>, line |-> s, sq |-> sq] :
+InvCases == {[quoted |-> TRUE, minimal |-> FALSE, args |-> a, line |-> QuoteJoin(a, sq), sq |-> sq] :
+                a \in ArgLists, sq \in BOOLEAN}
+MinArgLists == {<<>>} \cup {<<a>> : a \in Strs(Alpha, A1)}
+               \cup (Strs(Alpha, M2) \X Strs(Alpha, M2))
+               \cup (Strs(Alpha, A3) \X Strs(Alpha, A3) \X Strs(Alpha, A3))
+MinCases == {[quoted |-> TRUE, minimal |-> TRUE, args |-> a, line |-> QuoteMinimalJoin(a, sq), sq |-> sq] :
+                a \in MinArgLists, sq \in BOOLEAN}
+StrCases == {[quoted |-> FALSE, minimal |-> FALSE, args |-> <<>>, line |-> s, sq |-> sq] :
                 s \in Strs(Alpha \cup (IF WithTab THEN {TAB} ELSE {}), MaxStr), sq \in BOOLEAN}
-Cases == InvCases \cup StrCases
+Cases == InvCases \cup MinCases \cup StrCases
 VARIABLE c
 Init == c \in Cases
 Next == UNCHANGED c
 LawsHoldOnSpec == LET o == SpecOut(c) IN Failed(c, o) = {}
 \* anti-vacuity witnesses: TLC must find these states
-WitnessEscapedSingle == ~(c.quoted /\ c.sq /\ c.args = << <<"a">>, <<BS, SQ>> >>)   \* the \' subtlety
-WitnessTrailingRun   == ~(c.quoted /\ Len(c.args) = 1 /\ c.args[1] = <<"a", BS, BS>>)
-WitnessEmptyArg      == ~(c.quoted /\ c.args = << <<"a">>, <<>>, <<"a">> >>)
+WitnessEscapedSingle == ~(c.quoted /\ ~c.minimal /\ c.sq /\ c.args = << <<"a">>, <<BS, SQ>> >>)   \* the \' subtlety
+WitnessTrailingRun   == ~(c.quoted /\ ~c.minimal /\ Len(c.args) = 1 /\ c.args[1] = <<"a", BS, BS>>)
+WitnessEmptyArg      == ~(c.quoted /\ ~c.minimal /\ c.args = << <<"a">>, <<>>, <<"a">> >>)
+WitnessBareBackslash == ~(c.quoted /\ c.minimal /\ c.args = << <<BS>>, <<"a">> >> /\ c.line = <<BS, SP, "a">>)
+WitnessBareQuote     == ~(c.quoted /\ c.minimal /\ c.args = << <<DQ>>, <<>> >> /\ c.line = <<BS, DQ, SP, DQ, DQ>>)
 WitnessPushback      == ~(~c.quoted /\ c.line = <<BS, BS, DQ, SP, DQ>> /\ SpecOut(c).toks = <<<<BS, SP>>>>)
 WitnessEmptyTokens   == ~(~c.quoted /\ c.sq /\ c.line = <<DQ, DQ, SP, SQ, SQ>> /\ SpecOut(c).toks = << <<>>, <<>> >>)
 \* the transcription's answers are not exported: CmdlineTrace recomputes SpecOut per recorded row (in parallel JVMs),
